@@ -212,8 +212,8 @@ def gate(ctx=None):
                 depth -= 1
             elif depth == 0 and re.match(r"(Variable|Variables|Hypothesis|Hypotheses|Context)\b", s):
                 bad.append("%s: '%s' outside a section" % (os.path.relpath(f, VERIF), s[:60]))
-    cp = open(os.path.join(COQ, "_CoqProject")).read()
-    if FORBIDDEN.search(cp):
+    cpp = os.path.join(COQ, "_CoqProject")      # regenerated by coq_project_refresh; never hand-edited
+    if os.path.exists(cpp) and FORBIDDEN.search(open(cpp).read()):
         bad.append("_CoqProject: forbidden flag")
     return bad
 
@@ -221,6 +221,7 @@ def gate(ctx=None):
 
 def coq_project_refresh():
     """_CoqProject lists theories/*.v (committed) + gen/*.v (regenerated); rebuild Makefile when the set changes"""
+    os.makedirs(os.path.join(COQ, "gen"), exist_ok=True)
     head = ["-Q theories Alpaqa", "-Q gen Alpaqa",
             "-arg -w -arg -deprecated-instance-without-locality,-notation-overridden,-deprecated-hint-without-locality,-ambiguous-paths"]
     files = sorted(os.path.relpath(f, COQ) for f in glob.glob(os.path.join(COQ, "theories", "*.v")) + glob.glob(os.path.join(COQ, "gen", "*.v")))
